@@ -1817,6 +1817,23 @@ class Interp:
             if isinstance(recv, FileModel):
                 return BoundPy(recv, name, _file_method(recv, name))
             if getattr(recv, "strict", False):
+                # the scripted object stands for an instance of a package class: what the script does not cover is
+                # what the class itself defines (a private helper extracted from the method under analysis)
+                ci = self.repo.try_cls(recv.cls_fq) if recv.cls_fq and not has_default else None
+                if ci is not None:
+                    owner, what = self.repo.lookup(ci, name)
+                    if isinstance(what, FuncInfo):
+                        decs = [d.rsplit(".", 1)[-1] for d in what.decorators]
+                        fv = FuncVal(what, what.node, what.module)
+                        if not self.should_interpret(what) or any(d not in ("staticmethod", "classmethod") for d in decs):
+                            raise Unsupported(f"{recv.label}.{name}: {what.fq} is defined by the class but neither scripted nor followed")
+                        if "staticmethod" in decs:
+                            return fv
+                        if "classmethod" in decs:
+                            return Bound(ClassVal(ci), fv)
+                        return Bound(recv, fv)
+                    if isinstance(what, ast.AST) and isinstance(owner, ClassInfo) and owner.module.name in self.open_modules:
+                        return self.ev(what, self.class_frame(owner))
                 return missing(recv.label)
             v = T(f"${recv.label}.{name}", nonnone=False)
             recv.attrs[name] = v
